@@ -10,6 +10,19 @@ def main():
     import tapescript.functions as F, tapescript.parsing as P, tapescript.tools as T, tapescript.errors as E
     F.time = lambda: req.get('now', 1_700_000_000) + 0.73
     kind = req.get('kind')
+    rejected = []
+    for badname in req.get('rejected_installs', []):
+        # installs that must be refused and must leave the byte exactly as it was
+        try:
+            T.add_soft_fork(req['code'], badname, lambda tape, stack, cache: None)
+            rejected.append('accepted')
+        except BaseException as e:
+            rejected.append(type(e).__name__)
+        try:
+            F.add_opcode(req['code'], badname, lambda tape, stack, cache: None)
+            rejected.append('accepted')
+        except BaseException as e:
+            rejected.append(type(e).__name__)
     if kind:
         def fork(tape, stack, cache):
             """reads the count as NOP does, removes that many items, may raise"""
@@ -22,7 +35,7 @@ def main():
             if not ok:
                 raise E.ScriptExecutionError('fork check failed')
         T.add_soft_fork(req['code'], req['name'], fork, req.get('aliases', []))
-    out = {'auth': [], 'compile': [], 'decompile': []}
+    out = {'auth': [], 'compile': [], 'decompile': [], 'rejected': rejected}
     for scripts in req.get('auth', []):
         try:
             out['auth'].append(bool(F.run_auth_scripts([bytes.fromhex(s) for s in scripts])))
